@@ -948,6 +948,184 @@ def tr_patch(src, tree, parts):
                "; ".join(corners), f_inner, f_outer))
 
 
+# ------------------------------------------------------------------ geometry helpers the samplers' weights and normals go through
+GEO = "mouette/geometry/geometry.py"
+VECF = "mouette/geometry/vector.py"
+AFACE = "mouette/attributes/attr_faces.py"
+AEDGE = "mouette/attributes/attr_edges.py"
+
+
+def l2_branch(fn, rel, selfname):
+    """norm(x, which="l2"): the branch taken for which == "l2" must be np.sqrt(np.dot(v, v)) with v = x / x.flatten()"""
+    need(defaults_of(fn, rel).get("which") == "l2", rel, fn, "default norm is not l2")
+    for st in T.body_nodoc(fn):
+        if isinstance(st, ast.If):
+            t = st.test
+            if (isinstance(t, ast.Compare) and T.dotted(t.left) == "which" and len(t.ops) == 1 and isinstance(t.ops[0], ast.Eq)
+                    and const_is(t.comparators[0], "l2")):
+                need(len(st.body) == 1 and isinstance(st.body[0], ast.Return), rel, st, "l2 branch is not a single return")
+                hits = []
+
+                def is_dot(e):
+                    def v(x):
+                        return T.dotted(x) == selfname or (is_call(x, selfname + ".flatten", 0))
+                    return is_call(e, "np.dot", 2) and v(e.args[0]) and v(e.args[1])
+                import copy
+
+                class R(ast.NodeTransformer):
+                    def visit(self, n):
+                        if is_dot(n):
+                            hits.append(n)
+                            return ast.Name(id="__ss__", ctx=ast.Load())
+                        return self.generic_visit(n)
+                e2 = R().visit(copy.deepcopy(st.body[0].value))
+                need(len(hits) == 1, rel, st, "l2 norm is not a function of np.dot(v, v)")
+                return fexpr(e2, {"__ss__": "ss"}, rel)
+            T.fail(rel, st, "first branch of norm is not which == 'l2'")
+    T.fail(rel, fn, "no l2 branch found")
+
+
+def diff_of(e, x, a):
+    return isinstance(e, ast.BinOp) and isinstance(e.op, ast.Sub) and T.dotted(e.left) == x and T.dotted(e.right) == a
+
+
+def tr_geometry(parts):
+    out = []
+    src, tree = T.load(GEO)
+    # cross(A, B) -> Vec(e0, e1, e2)
+    fn = T.find_def(tree, "cross", GEO)
+    parts.append(("geometry.cross", T.sha(src, fn)))
+    check_decorators(fn, GEO)
+    need([a.arg for a in fn.args.args] == ["A", "B"] and not fn.args.defaults, GEO, fn, "unexpected parameters of cross")
+    b = T.body_nodoc(fn)
+    need(len(b) == 1 and isinstance(b[0], ast.Return) and is_call(b[0].value, "Vec", 3), GEO, fn, "cross is not return Vec(e0, e1, e2)")
+
+    def sub(e):
+        v = T.dotted(e.value)
+        need(v in ("A", "B") and isinstance(e.slice, ast.Constant) and e.slice.value in (0, 1, 2), GEO, e, "unexpected subscript in cross")
+        return ("a" if v == "A" else "b") + str(e.slice.value)
+    for i2, e in enumerate(b[0].value.args):
+        out.append("Definition cross_c%d {T} (o : ops T) (a0 a1 a2 b0 b1 b2 : T) : T := %s.\n" % (i2, fexpr(e, {"[]": sub}, GEO)))
+    # norm(x, which) and distance(A, B, which)
+    fn = T.find_def(tree, "norm", GEO)
+    parts.append(("geometry.norm", T.sha(src, fn)))
+    check_decorators(fn, GEO)
+    need([a.arg for a in fn.args.args] == ["x", "which"], GEO, fn, "unexpected parameters of norm")
+    out.append("Definition geom_norm_l2 {T} (o : ops T) (ss : T) : T := %s.\n" % l2_branch(fn, GEO, "x"))
+    fn = T.find_def(tree, "distance", GEO)
+    parts.append(("geometry.distance", T.sha(src, fn)))
+    check_decorators(fn, GEO)
+    need([a.arg for a in fn.args.args] == ["A", "B", "which"] and defaults_of(fn, GEO) == {"which": "l2"}, GEO, fn,
+         "unexpected parameters of distance")
+    b = T.body_nodoc(fn)
+    ok = (len(b) == 1 and isinstance(b[0], ast.Return) and is_call(b[0].value, "norm", 2) and T.dotted(b[0].value.args[1]) == "which"
+          and not b[0].value.keywords)
+    need(ok, GEO, fn, "distance is not norm(<difference>, which)")
+    out.append("Definition distance_diff {T} (o : ops T) (a b : T) : T := %s.\n" % fexpr(b[0].value.args[0], {"A": "a", "B": "b"}, GEO))
+    # triangle_area(A, B, C) = f(cross(B-A, C-A).norm())
+    fn = T.find_def(tree, "triangle_area", GEO)
+    parts.append(("geometry.triangle_area", T.sha(src, fn)))
+    check_decorators(fn, GEO)
+    need([a.arg for a in fn.args.args] == ["A", "B", "C"] and not fn.args.defaults, GEO, fn, "unexpected parameters of triangle_area")
+    b = T.body_nodoc(fn)
+    need(len(b) == 1 and isinstance(b[0], ast.Return), GEO, fn, "triangle_area is not a single return")
+    hits = []
+
+    def is_nrm(e):
+        return (isinstance(e, ast.Call) and isinstance(e.func, ast.Attribute) and e.func.attr == "norm" and not e.args and not e.keywords
+                and is_call(e.func.value, "cross", 2) and diff_of(e.func.value.args[0], "B", "A") and diff_of(e.func.value.args[1], "C", "A"))
+    import copy
+
+    class R(ast.NodeTransformer):
+        def visit(self, n):
+            if is_nrm(n):
+                hits.append(n)
+                return ast.Name(id="__nrm__", ctx=ast.Load())
+            return self.generic_visit(n)
+    e2 = R().visit(copy.deepcopy(b[0].value))
+    need(len(hits) == 1, GEO, fn, "triangle_area is not a function of cross(B-A, C-A).norm()")
+    out.append("Definition tri_area_of_norm {T} (o : ops T) (nrm : T) : T := %s.\n" % fexpr(e2, {"__nrm__": "nrm"}, GEO))
+    # Vec.norm / Vec.normalized
+    vsrc, vtree = T.load(VECF)
+    fn = T.find_def(vtree, "Vec.norm", VECF)
+    parts.append(("Vec.norm", T.sha(vsrc, fn)))
+    check_decorators(fn, VECF)
+    need([a.arg for a in fn.args.args] == ["self", "which"], VECF, fn, "unexpected parameters of Vec.norm")
+    out.append("Definition vec_norm_l2 {T} (o : ops T) (ss : T) : T := %s.\n" % l2_branch(fn, VECF, "self"))
+    fn = T.find_def(vtree, "Vec.normalized", VECF)
+    parts.append(("Vec.normalized", T.sha(vsrc, fn)))
+    check_decorators(fn, VECF, ["staticmethod"])
+    need([a.arg for a in fn.args.args] == ["vec", "which"] and defaults_of(fn, VECF) == {"which": "l2"}, VECF, fn,
+         "unexpected parameters of Vec.normalized")
+    b = T.body_nodoc(fn)
+    a0 = assign1(b[0]) if b else None
+    ok = (len(b) == 3 and a0 and is_call(a0[1], "Vec.norm", 2) and T.dotted(a0[1].args[0]) == "vec" and T.dotted(a0[1].args[1]) == "which"
+          and isinstance(b[1], ast.With) and len(b[1].body) == 1 and assign1(b[1].body[0]) and is_call(assign1(b[1].body[0])[1], "Vec", 1)
+          and isinstance(b[2], ast.Return) and T.dotted(b[2].value) == assign1(b[1].body[0])[0])
+    need(ok, VECF, fn, "Vec.normalized is not nrm = Vec.norm(vec, which); out = Vec(<expr>); return out")
+    out.append("Definition normalized_coord {T} (o : ops T) (x nrm : T) : T := %s.\n"
+               % fexpr(assign1(b[1].body[0])[1].args[0], {"vec": "x", a0[0]: "nrm"}, VECF))
+    # the attribute functions: which helper is applied to which vertices
+    fsrc, ftree = T.load(AFACE)
+    fn = T.find_def(ftree, "face_area", AFACE)
+    parts.append(("attributes.face_area", T.sha(fsrc, fn)))
+    loop = [st for st in T.body_nodoc(fn) if isinstance(st, ast.For)]
+    need(len(loop) == 1 and T.dotted(loop[0].iter) == "mesh.id_faces" and len(loop[0].body) == 3, AFACE, fn, "face loop not recognised")
+    tv = T.dotted(loop[0].target)
+    a0 = assign1(loop[0].body[0])
+    ok = (a0 and isinstance(a0[1], ast.ListComp) and len(a0[1].generators) == 1 and isinstance(a0[1].generators[0].iter, ast.Subscript)
+          and T.dotted(a0[1].generators[0].iter.value) == "mesh.faces" and T.dotted(a0[1].generators[0].iter.slice) == tv
+          and isinstance(a0[1].elt, ast.Subscript) and T.dotted(a0[1].elt.value) == "mesh.vertices"
+          and T.dotted(a0[1].elt.slice) == T.dotted(a0[1].generators[0].target) and not a0[1].generators[0].ifs)
+    need(ok, AFACE, loop[0], "pts = [mesh.vertices[u] for u in mesh.faces[T]] expected")
+    br = loop[0].body[2]
+    ok = (isinstance(br, ast.If) and isinstance(br.test, ast.Compare) and isinstance(br.test.ops[0], ast.Eq) and const_eq(br.test.comparators[0], 3)
+          and len(br.body) == 1 and isinstance(br.body[0], ast.Assign) and isinstance(br.body[0].targets[0], ast.Subscript)
+          and T.dotted(br.body[0].targets[0].slice) == tv and is_call(br.body[0].value, "geom.triangle_area", 1)
+          and isinstance(br.body[0].value.args[0], ast.Starred) and T.dotted(br.body[0].value.args[0].value) == a0[0])
+    need(ok, AFACE, br, "triangles are not measured by area[T] = geom.triangle_area(*pts)")
+    fn = T.find_def(ftree, "face_normals", AFACE)
+    parts.append(("attributes.face_normals", T.sha(fsrc, fn)))
+    loop = [st for st in T.body_nodoc(fn) if isinstance(st, ast.For)]
+    need(len(loop) == 1 and is_call(loop[0].iter, "enumerate", 1) and T.dotted(loop[0].iter.args[0]) == "mesh.faces"
+         and len(loop[0].body) == 2, AFACE, fn, "normal loop not recognised")
+    iv, fv = [e.id for e in loop[0].target.elts]
+    s0 = loop[0].body[0]
+    ok = (isinstance(s0, ast.Assign) and isinstance(s0.targets[0], ast.Tuple) and len(s0.targets[0].elts) == 3
+          and isinstance(s0.value, ast.GeneratorExp) and len(s0.value.generators) == 1 and isinstance(s0.value.generators[0].iter, ast.Subscript)
+          and T.dotted(s0.value.generators[0].iter.value) == fv and isinstance(s0.value.generators[0].iter.slice, ast.Slice)
+          and s0.value.generators[0].iter.slice.lower is None and const_eq(s0.value.generators[0].iter.slice.upper, 3)
+          and isinstance(s0.value.elt, ast.Subscript) and T.dotted(s0.value.elt.value) == "mesh.vertices"
+          and T.dotted(s0.value.elt.slice) == T.dotted(s0.value.generators[0].target))
+    need(ok, AFACE, s0, "pA,pB,pC = (mesh.vertices[u] for u in T[:3]) expected")
+    pa, pb, pc = [e.id for e in s0.targets[0].elts]
+    s1 = loop[0].body[1]
+    ok = (isinstance(s1, ast.Assign) and isinstance(s1.targets[0], ast.Subscript) and T.dotted(s1.targets[0].slice) == iv
+          and is_call(s1.value, "Vec.normalized", 1) and not s1.value.keywords and is_call(s1.value.args[0], "geom.cross", 2)
+          and diff_of(s1.value.args[0].args[0], pb, pa) and diff_of(s1.value.args[0].args[1], pc, pa))
+    need(ok, AFACE, s1, "normals[iT] = Vec.normalized(geom.cross(pB-pA, pC-pA)) expected")
+    esrc, etree = T.load(AEDGE)
+    fn = T.find_def(etree, "edge_length", AEDGE)
+    parts.append(("attributes.edge_length", T.sha(esrc, fn)))
+    loop = [st for st in T.body_nodoc(fn) if isinstance(st, ast.For)]
+    need(len(loop) == 1 and is_call(loop[0].iter, "enumerate", 1) and T.dotted(loop[0].iter.args[0]) == "mesh.edges"
+         and len(loop[0].body) == 2 and isinstance(loop[0].target, ast.Tuple) and isinstance(loop[0].target.elts[1], ast.Tuple), AEDGE, fn,
+         "edge loop not recognised")
+    ev = loop[0].target.elts[0].id
+    ea, eb = [e.id for e in loop[0].target.elts[1].elts]
+    s0 = loop[0].body[0]
+    ok = (isinstance(s0, ast.Assign) and isinstance(s0.targets[0], ast.Tuple) and isinstance(s0.value, ast.Tuple)
+          and [T.dotted(x.value) for x in s0.value.elts] == ["mesh.vertices", "mesh.vertices"]
+          and [T.dotted(x.slice) for x in s0.value.elts] == [ea, eb])
+    need(ok, AEDGE, s0, "pA,pB = mesh.vertices[a], mesh.vertices[b] expected")
+    pa, pb = [e.id for e in s0.targets[0].elts]
+    s1 = loop[0].body[1]
+    ok = (isinstance(s1, ast.Assign) and isinstance(s1.targets[0], ast.Subscript) and T.dotted(s1.targets[0].slice) == ev
+          and is_call(s1.value, "geom.distance", 2) and [T.dotted(x) for x in s1.value.args] == [pa, pb] and not s1.value.keywords)
+    need(ok, AEDGE, s1, "length[e] = geom.distance(pA,pB) expected")
+    return "".join(out)
+
+
 def check_imports(tree):
     """the names the recognisers rely on must be the numpy ones"""
     got = set()
@@ -977,6 +1155,8 @@ def gen():
     body.append(tr_box(src, tree, parts))
     body.append(tr_polyline(src, tree, parts))
     body.append(tr_surface(src, tree, parts))
+    body.append("(* ---- geometry/geometry.py, geometry/vector.py, attributes (edge_length, face_area, face_normals) *)\n")
+    body.append(tr_geometry(parts))
     bsrc, btree = T.load(BEZ)
     body.append("(* ---- splines/bezier.py *)\n")
     body.append(tr_decasteljau(bsrc, btree, parts))
